@@ -136,6 +136,31 @@ func init() {
 	reg("tensor.Tensor.Dims", "returns the rank of the tensor", func(x *Exec, fr *Frame, i *ssa.Call, fn *ssa.Function, args []Val) Val {
 		return Val{T: i.Type(), C: []string{x.tRank(fr.curSt, tensorRef(args[0]))}}
 	})
+	reg("google.golang.org/protobuf/proto.Unmarshal", "returns an error or fills the message with a freshly allocated, well-formed tree (repeated message fields hold no nil elements); never panics",
+		func(x *Exec, fr *Frame, i *ssa.Call, fn *ssa.Function, args []Val) Val {
+			st := fr.curSt
+			msg := args[1]
+			// the message object is overwritten; everything it points to afterwards is newly allocated
+			for _, tt := range x.tagTypes {
+				if p, ok := tt.(*types.Pointer); ok {
+					if stt, ok := p.Elem().Underlying().(*types.Struct); ok && isNamed(p.Elem(), "gonnx/onnx", "ModelProto") {
+						ly := layout(p.Elem())
+						for k := range ly {
+							name := fmt.Sprintf("F$%s$%d", typeKey(p.Elem()), k)
+							h := x.comp(st, name, fieldSort(ly[k].Sort))
+							nv := x.fresh("unmarshal_f", ly[k].Sort)
+							x.setComp(st, name, fieldSort(ly[k].Sort), sto(h, msg.pay(), nv))
+						}
+						_ = stt
+					}
+				}
+			}
+			oldA := x.alloc(st)
+			newA := x.fresh("alloc_after_unmarshal", SInt)
+			st.H["$alloc"] = newA
+			x.assume("true", sx(">=", newA, oldA))
+			return x.errOnly(fr, x.nondetBool("unmarshal_ok"))
+		})
 	// ------------------------------------------------------------------ bytes.Reader
 	reg("bytes.NewReader", "fresh reader over b at position 0; b is aliased, not copied", func(x *Exec, fr *Frame, i *ssa.Call, fn *ssa.Function, args []Val) Val {
 		st := fr.curSt
